@@ -518,11 +518,15 @@ def parse_guard(ctx):
                 for a in _anc(x):
                     if isinstance(a, ast.Try) and any(x is y for s_ in a.body for y in ast.walk(s_)):
                         for h in a.handlers:
+                            # whatever the parser raises (struct.error, IndexError, ValueError from a UUID of illegal length, ...)
+                            hn = {text(t).split('.')[-1] for t in (h.type.elts if isinstance(h.type, ast.Tuple) else [h.type])} if h.type is not None else {'<bare>'}
+                            if not hn & {'Exception', 'BaseException', '<bare>'}:
+                                continue
                             resp = [r for r in ast.walk(h) if isinstance(r, ast.Call) and call_attr(r) == 'ATT_Error_Response']
                             guards = [(norm(t), pol) for r in resp for t, pol in paths.flat_guards(r, stop=h)]
                             if resp and any('ATT_REQUESTS' in t and pol for t, pol in guards) and all(kwarg(r, 'request_opcode_in_error') is not None and norm(kwarg(r, 'request_opcode_in_error')).endswith('[0]') for r in resp):
                                 contained = True
-            R.check(contained, rule, f'{p.qual_of(c)} | parse guarded', 'the parse is inside try/except that answers an unparseable request (and only a request) with an Error Response naming its opcode',
+            R.check(contained, rule, f'{p.qual_of(c)} | parse guarded', 'the parse is inside try/except Exception that answers an unparseable request (and only a request) with an Error Response naming its opcode',
                     'received bytes are parsed outside any handler that answers: a truncated request raises before the dispatcher is reached and is never answered (the client waits for its timeout)', f'{m.rel}:{c.lineno}')
     R.check(n >= 1, rule, 'sites feeding Server.on_gatt_pdu', f'{n} call site(s)', f'no call site of Server.on_gatt_pdu found')
     # 2. the fixed-channel entry point and the EATT sink use the guarded entry
